@@ -1,0 +1,42 @@
+//go:build verif
+
+package hermes
+
+// Export shims for unexported kernels (build tag "verif" only): they let an
+// out-of-package monitor call the real routines on captured or generated states.
+
+// VerifMineral calls the mineralisation routine.
+func VerifMineral(g *GlobalVarsMain, l *NitroSharedVars) { mineral(g, l) }
+
+// VerifNmove calls the N transport routine.
+func VerifNmove(wdt float64, subd int, zeit int, g *GlobalVarsMain, l *NitroSharedVars) {
+	nmove(wdt, subd, zeit, g, l)
+}
+
+// VerifCalcWRed calls the reduced-mineralisation threshold helper.
+func VerifCalcWRed(wiltingPoint, fieldCapacity float64, g *GlobalVarsMain) {
+	calcWRed(wiltingPoint, fieldCapacity, g)
+}
+
+// VerifSetFieldCapacityWithGW calls the groundwater helper.
+func VerifSetFieldCapacityWithGW(g *GlobalVarsMain) { setFieldCapacityWithGW(g) }
+
+// VerifReadConfig calls the configuration reader.
+func VerifReadConfig(g *GlobalVarsMain, argValues map[string]string, hp *HFilePath) Config {
+	return readConfig(g, argValues, hp)
+}
+
+// VerifRoot calls the root depth function.
+func VerifRoot(veloc, tempsum, dz float64) (qrez, potentialRootingDepth float64) {
+	q, p, _ := root(veloc, tempsum, dz)
+	return q, p
+}
+
+// VerifTendsum returns the total temperature sum derived when the crop file was read.
+func (l *CropSharedVars) VerifTendsum() float64 { return l.tendsum }
+
+// VerifKc returns the kc factors per stage.
+func (l *CropSharedVars) VerifKc() [10]float64 { return l.kc }
+
+// VerifTemptyp returns the C3/C4 switch.
+func (l *CropSharedVars) VerifTemptyp() int { return l.temptyp }
